@@ -37,6 +37,7 @@ const (
 	c09EndKeepAlive
 	c09EndGraceful
 	c09WriteFail // transport dead at CONNECT: Transport.Write returns an error
+	c09EndRetry  // connected, healthy; a request gets no acknowledgement within ResponseTimeout: the RetryClient closes the client
 )
 
 const (
@@ -53,8 +54,10 @@ type c09Out struct {
 	Code byte // CONNACK return code for c09Refused
 }
 
-func (o c09Out) connected() bool { return o.Kind >= c09EndPeer && o.Kind <= c09EndGraceful }
-func (o c09Out) dialOK() bool    { return o.Kind != c09DialErr }
+func (o c09Out) connected() bool {
+	return (o.Kind >= c09EndPeer && o.Kind <= c09EndGraceful) || o.Kind == c09EndRetry
+}
+func (o c09Out) dialOK() bool { return o.Kind != c09DialErr }
 
 func (o c09Out) coq() string {
 	switch o.Kind {
@@ -68,6 +71,8 @@ func (o c09Out) coq() string {
 		return "OConnFail CPeerClosed"
 	case c09WriteFail:
 		return "OConnFail CWriteFail"
+	case c09EndRetry:
+		return "OConnected ERetryClose"
 	case c09EndPeer:
 		return "OConnected EPeerClose"
 	case c09EndProto:
@@ -90,6 +95,8 @@ func (o c09Out) desc() string {
 		return "peer-closes-during-connect"
 	case c09WriteFail:
 		return "write-of-CONNECT-fails(transport-dead)"
+	case c09EndRetry:
+		return "connected-then-request-unacknowledged(retry-client-closes)"
 	case c09EndPeer:
 		return "connected-then-peer-close"
 	case c09EndProto:
@@ -207,6 +214,8 @@ type c09Preset struct {
 	coq  string
 }
 
+const c09NPresets = 10
+
 func c09Presets() []c09Preset {
 	will := &mqtt.Message{Topic: "will/t", Payload: []byte("gone"), QoS: mqtt.QoS1, Retain: true}
 	mk := func(level int, clean bool, ka int, cid, user, pass, will string) string {
@@ -222,6 +231,14 @@ func c09Presets() []c09Preset {
 				fmt.Sprintf("(Some {| w_topic := %s; w_payload := %s; w_qos := 1; w_retain := true |})", cStr("will/t"), cStr("gone")))},
 		{"", []mqtt.ConnectOption{mqtt.WithCleanSession(true), mqtt.WithKeepAlive(600), mqtt.WithProtocolLevel(mqtt.ProtocolLevel3)},
 			mk(3, true, 600, "", "", "", "None")},
+		// odd client ids; the CONNECT of every connection is compared with the caller's arguments
+		{"", nil, mk(4, false, 0, "", "", "", "None")}, // empty id without CleanSession
+		{"", []mqtt.ConnectOption{mqtt.WithCleanSession(true)}, mk(4, true, 0, "", "", "", "None")},
+		{"x", nil, mk(4, false, 0, "x", "", "", "None")},
+		{"abcdefghijklmnopqrstuvw", nil, mk(4, false, 0, "abcdefghijklmnopqrstuvw", "", "", "None")}, // 23 characters
+		{"a-client-identifier-longer-than-23-characters", []mqtt.ConnectOption{mqtt.WithCleanSession(true)},
+			mk(4, true, 0, "a-client-identifier-longer-than-23-characters", "", "", "None")},
+		{"клиент-é-客", []mqtt.ConnectOption{mqtt.WithUserNamePassword("ü", "")}, mk(4, false, 0, "клиент-é-客", "ü", "", "None")},
 	}
 }
 
@@ -265,18 +282,21 @@ type c09Run struct {
 	rc     *mqtt.RetryClient
 	cancel context.CancelFunc
 
-	mu      sync.Mutex
-	log     []c09Ev
-	nDial   int
-	nOpen   int
-	dialT   []time.Time
-	refT    map[int]time.Time
-	stopT   map[string]time.Time // when a stop was known to have landed
-	clis    []*c09Cli
-	silent  map[int]bool
-	active  map[int]bool // ConnState reported StateActive: Connect on transport k was accepted
-	nWrites map[int]int
-	notes   []string
+	mu        sync.Mutex
+	log       []c09Ev
+	nDial     int
+	nOpen     int
+	dialT     []time.Time
+	refT      map[int]time.Time
+	stopT     map[string]time.Time // when a stop was known to have landed
+	clis      []*c09Cli
+	silent    map[int]bool
+	active    map[int]bool // ConnState reported StateActive: Connect on transport k was accepted
+	ackLeft   map[int]int  // transport k: requests still to be acknowledged before the broker goes silent (-1: all)
+	discAsked bool         // the harness has started a ReconnectClient.Disconnect call
+	unasked   int          // DISCONNECT packets written although the application had not called Disconnect
+	nWrites   map[int]int
+	notes     []string
 
 	discOnce sync.Once
 	discDone chan struct{}
@@ -316,6 +336,9 @@ func (r *c09Run) doCancel() {
 // or the call has finished / panicked, or 5 s have passed.
 func (r *c09Run) landDisconnect() {
 	r.discOnce.Do(func() {
+		r.mu.Lock()
+		r.discAsked = true
+		r.mu.Unlock()
 		finished := make(chan struct{})
 		logged := make(chan struct{})
 		go func() {
@@ -406,6 +429,24 @@ func (r *c09Run) failurePoint(i int) {
 	r.refT[i] = now
 	r.mu.Unlock()
 	s := r.scn
+	if i < len(s.Script)-1 {
+		// nothing stops the client before its last scripted iteration: a dial must follow this end
+		go func() {
+			deadline := time.Now().Add(s.specWait(i) + 5*time.Second)
+			for time.Now().Before(deadline) {
+				r.mu.Lock()
+				n := r.nDial
+				r.mu.Unlock()
+				if n > i+1 || r.discCalled() {
+					return
+				}
+				time.Sleep(2 * time.Millisecond)
+			}
+			r.logEv(c09Ev{Kind: "no-redial"})
+			r.note(fmt.Sprintf("no dial within wait + 5 s after iteration %d ended", i))
+			r.landDisconnect()
+		}()
+	}
 	go func() {
 		slept := false
 		nap := func() {
@@ -464,7 +505,69 @@ func (r *c09Run) onActive(i int, c *c09Cli) {
 		if err := c.cli.Disconnect(ctx); err != nil {
 			r.note(fmt.Sprint("BaseClient.Disconnect: ", err))
 		}
+	case c09EndRetry:
+		// the connection stays healthy; the application issues requests through the reconnecting
+		// client, the broker acknowledges the first few and is silent on the next one
+		acked := i % 3
+		r.mu.Lock()
+		r.ackLeft[c.conn.k] = acked
+		r.mu.Unlock()
+		ctx := context.Background()
+		for q := 0; q <= acked; q++ {
+			var err error
+			switch (i + q + len(s.Script)) % 3 {
+			case 0:
+				err = r.cli.Publish(ctx, &mqtt.Message{Topic: "c09/q1", QoS: mqtt.QoS1, Payload: []byte{byte(i), byte(q)}})
+			case 1:
+				err = r.cli.Publish(ctx, &mqtt.Message{Topic: "c09/q2", QoS: mqtt.QoS2, Payload: []byte{byte(i), byte(q)}})
+			default:
+				_, err = r.cli.Subscribe(ctx, mqtt.Subscription{Topic: "c09/sub", QoS: mqtt.QoS1})
+			}
+			if err != nil {
+				r.note(fmt.Sprint("request: ", err))
+			}
+		}
 	}
+}
+
+// c09Ack answers a request packet as a conforming broker would (nil: no answer to this packet type).
+func c09Ack(pkt []byte) []byte {
+	// skip the fixed header
+	p := 1
+	for p < len(pkt) && pkt[p]&0x80 != 0 {
+		p++
+	}
+	p++
+	body := pkt[min(p, len(pkt)):]
+	switch pkt[0] & 0xF0 {
+	case 0x30: // PUBLISH
+		qos := (pkt[0] >> 1) & 3
+		if qos == 0 || len(body) < 2 {
+			return nil
+		}
+		tl := int(body[0])<<8 | int(body[1])
+		if len(body) < 2+tl+2 {
+			return nil
+		}
+		id := body[2+tl : 2+tl+2]
+		if qos == 1 {
+			return []byte{0x40, 2, id[0], id[1]}
+		}
+		return []byte{0x50, 2, id[0], id[1]}
+	case 0x60: // PUBREL
+		if len(body) >= 2 {
+			return []byte{0x70, 2, body[0], body[1]}
+		}
+	case 0x80: // SUBSCRIBE, one filter
+		if len(body) >= 2 {
+			return []byte{0x90, 3, body[0], body[1], 1}
+		}
+	case 0xA0: // UNSUBSCRIBE
+		if len(body) >= 2 {
+			return []byte{0xB0, 2, body[0], body[1]}
+		}
+	}
+	return nil
 }
 
 func (r *c09Run) dial(ctx context.Context) (*mqtt.BaseClient, error) {
@@ -600,12 +703,36 @@ func (r *c09Run) onWrite(i int, c *c09Cli, pkt []byte) error {
 		if !silent {
 			c.conn.send([]byte{0xD0, 0})
 		}
+	case typ == 0xE0:
+		r.mu.Lock()
+		asked := r.discAsked
+		r.mu.Unlock()
+		if !asked && s.Script[i].Kind != c09EndGraceful {
+			r.mu.Lock()
+			r.unasked++
+			r.mu.Unlock()
+			r.note(fmt.Sprintf("DISCONNECT written on transport %d although the application had not called Disconnect", k))
+		}
+	default:
+		if ack := c09Ack(pkt); ack != nil {
+			r.mu.Lock()
+			left, limited := r.ackLeft[k]
+			if limited && left > 0 && typ != 0x60 {
+				r.ackLeft[k] = left - 1
+			}
+			r.mu.Unlock()
+			// PUBREL of an already acknowledged exchange is always answered
+			if !limited || left > 0 || typ == 0x60 {
+				c.conn.send(ack)
+			}
+		}
 	}
 	return nil
 }
 
 type c09Obs struct {
 	lastAccepted bool // Connect on the last transport handed out was accepted
+	unasked      int
 	refT         map[int]time.Time
 	stopT        map[string]time.Time
 	log          []c09Ev
@@ -622,13 +749,17 @@ var c09StressSpin = func() int {
 }()
 var c09Sink int
 
-const c09Timeout = 400 * time.Millisecond // WithTimeout when the script needs CONNACK / PINGRESP timeouts
+const c09Timeout = 400 * time.Millisecond
+const c09RespTimeout = 300 * time.Millisecond // RetryClient.ResponseTimeout in scenarios with an unacknowledged request // WithTimeout when the script needs CONNACK / PINGRESP timeouts
 const c09Ping = 20 * time.Millisecond
 
 func c09Exec(s *c09Scn, presets []c09Preset) *c09Obs {
-	r := &c09Run{scn: s, refT: map[int]time.Time{}, stopT: map[string]time.Time{}, silent: map[int]bool{}, active: map[int]bool{}, nWrites: map[int]int{},
+	r := &c09Run{scn: s, refT: map[int]time.Time{}, stopT: map[string]time.Time{}, silent: map[int]bool{}, active: map[int]bool{}, ackLeft: map[int]int{}, nWrites: map[int]int{},
 		discDone: make(chan struct{}), fpOnce: map[int]bool{}}
 	r.rc = &mqtt.RetryClient{}
+	if s.has(c09EndRetry) {
+		r.rc.ResponseTimeout = c09RespTimeout
+	}
 	ropts := []mqtt.ReconnectOption{mqtt.WithRetryClient(r.rc), mqtt.WithReconnectWait(s.Base, s.Max)}
 	if s.timeout() {
 		ropts = append(ropts, mqtt.WithTimeout(c09Timeout))
@@ -689,6 +820,7 @@ func c09Exec(s *c09Scn, presets []c09Preset) *c09Obs {
 	r.mu.Lock()
 	o.log = append([]c09Ev{}, r.log...)
 	o.lastAccepted = r.nOpen > 0 && r.active[r.nOpen-1]
+	o.unasked = r.unasked
 	o.refT, o.stopT = map[int]time.Time{}, map[string]time.Time{}
 	for k, v := range r.refT {
 		o.refT[k] = v
@@ -762,6 +894,8 @@ func (o *c09Obs) coq() string {
 			ev = append(ev, "OPanic")
 		case "stuck":
 			ev = append(ev, "OStuck")
+		case "no-redial":
+			ev = append(ev, "ONoRedial")
 		}
 	}
 	return cListInline(ev)
@@ -795,7 +929,7 @@ func (o *c09Obs) elapsedCoq() string {
 func c09Alphabet(full bool) []c09Out {
 	a := []c09Out{{Kind: c09DialErr}, {Kind: c09Refused, Code: 5}, {Kind: c09PeerClosed}, {Kind: c09EndPeer}, {Kind: c09EndProto}}
 	if full {
-		a = append(a, c09Out{Kind: c09NoConnack}, c09Out{Kind: c09EndKeepAlive}, c09Out{Kind: c09WriteFail})
+		a = append(a, c09Out{Kind: c09NoConnack}, c09Out{Kind: c09EndKeepAlive}, c09Out{Kind: c09WriteFail}, c09Out{Kind: c09EndRetry})
 	}
 	return a
 }
@@ -952,10 +1086,11 @@ func c09Generate(tier string, seed int64) (serial []*c09Scn, par []*c09Scn) {
 			if s.Base == 0 {
 				c09Timing(s)
 			}
-			s.Preset = len(par) % 4
+			s.Preset = len(par) % c09NPresets
 			if s.NoTimeout {
 				// presets without a keep-alive option: Timeout defaults to PingInterval = KeepAlive seconds
-				s.Preset = []int{0, 2}[len(par)%2]
+				np := []int{0, 2, 4, 5, 6, 7, 8, 9}
+				s.Preset = np[len(par)%len(np)]
 			}
 			par = append(par, s)
 		}
@@ -986,9 +1121,9 @@ func c09Generate(tier string, seed int64) (serial []*c09Scn, par []*c09Scn) {
 	case "quick":
 		enum(full, 1)
 		enum(full, 2)
-		sample(small, 3, 120)
+		sample(small, 3, 80)
 		sample(full, 3, 40)
-		sample(small, 4, 60)
+		sample(small, 4, 40)
 		sample(full, 5, 12)
 	case "search":
 		enum(full, 1)
@@ -1110,6 +1245,7 @@ func runC09(cfg *runCfg) error {
 	stopKinds := map[string]int{}
 	lens := map[string]int{}
 	retried, hung := 0, 0
+	unaskedTotal := 0
 	raceAccepted, raceAborted := 0, 0
 	dropped := 0
 	for _, r := range results {
@@ -1152,7 +1288,7 @@ func runC09(cfg *runCfg) error {
 		if len(o.notes) > 0 {
 			d["notes"] = o.notes
 		}
-		for _, fam := range []string{"trace", "backoff", "one_transport", "connect", "stop", "dialctx", "waitub"} {
+		for _, fam := range []string{"trace", "backoff", "one_transport", "connect", "stop", "dialctx", "redial", "waitub"} {
 			m.Families[fam] = append(m.Families[fam], d)
 		}
 		for _, x := range s.Script {
@@ -1174,6 +1310,7 @@ func runC09(cfg *runCfg) error {
 		if r.try > 1 {
 			retried++
 		}
+		unaskedTotal += o.unasked
 		if o.hung {
 			hung++
 			m.ImplViolations = append(m.ImplViolations, map[string]interface{}{"what": "scenario did not end (loop kept running / Disconnect never returned)", "scenario": d})
@@ -1202,6 +1339,7 @@ func runC09(cfg *runCfg) error {
 	cf.result("V_connect", "c09_connect_violations cases")
 	cf.result("V_stop", "c09_stop_violations cases")
 	cf.result("V_dialctx", "c09_dialctx_violations cases")
+	cf.result("V_redial", "c09_redial_violations cases")
 	cf.def("stress_cases", "list (nat * bool)", cListInline(stressCases))
 	cf.result("V_redial_stress", "c09_stress_violations stress_cases")
 	cf.result("M_trace", "c09_trace_mismatches cases")
@@ -1215,6 +1353,7 @@ func runC09(cfg *runCfg) error {
 	m.Distribution["script_lengths"] = keys(lens)
 	m.Distribution["scenarios_repeated_because_a_stop_landed_late"] = retried
 	m.Distribution["serial_upper_bound_scenarios"] = len(serial)
+	m.Distribution["disconnect_packets_the_application_never_asked_for"] = unaskedTotal
 	m.Distribution["scenarios_dropped_after_three_late_stops"] = dropped
 	m.Distribution["handshake_race_disconnect_vs_connack"] = map[string]int{"connack_won": raceAccepted, "disconnect_won": raceAborted}
 	var ls []string
